@@ -411,7 +411,11 @@ func (m *CSRMatrix) Transpose(ctx context.Context) (*CSRMatrix, error) {
 	mt, err := m.CSMatrix.Transpose(ctx)
 	switch err {
 	case nil:
-		return &CSRMatrix{*mt}, nil
+		t := &CSRMatrix{*mt}
+		// t is a copy of *mt; it needs its own finalizer,
+		// or a later Mmap() of it is never released.
+		runtime.SetFinalizer(&t.CSMatrix, (*CSMatrix).finalize)
+		return t, nil
 	default:
 		return nil, err
 	}
@@ -458,7 +462,11 @@ func (m *CSCMatrix) Transpose(ctx context.Context) (*CSCMatrix, error) {
 	mt, err := m.CSMatrix.Transpose(ctx)
 	switch err {
 	case nil:
-		return &CSCMatrix{*mt}, nil
+		t := &CSCMatrix{*mt}
+		// t is a copy of *mt; it needs its own finalizer,
+		// or a later Mmap() of it is never released.
+		runtime.SetFinalizer(&t.CSMatrix, (*CSMatrix).finalize)
+		return t, nil
 	default:
 		return nil, err
 	}
